@@ -7,22 +7,30 @@
 (* only action that consumes it is Violation, which reports it               *)
 (*   <<"BAD", line, record>>                                                 *)
 (* so that the runs after it in the same file are still judged.              *)
-(* `alive` counts the steps of the current run that produced outputs.        *)
-EXTENDS Naturals, Sequences, TLC, TraceKit
+(* The report says whether the run up to and including the panicking event   *)
+(* respected the connection lifecycle a TcpInterface guarantees (Lifecycle):  *)
+(* a panic reached that way is peer-drivable and gets a different finding key *)
+(* than the same panic site reached by an impossible event sequence.          *)
+EXTENDS Naturals, Sequences, TLC, TraceKit, Lifecycle
 
-VARIABLES l, steps
-tvars == <<l, steps>>
+VARIABLES l, steps, lc
+tvars == <<l, steps, lc>>
 
-TInit == l = 1 /\ steps = 0
+TInit == l = 1 /\ steps = 0 /\ lc = LcInit(FALSE)
 
 WellFormed(r) == Has(r, "ev") /\ (r.ev \notin {"reset", "skip", "panic"} => Has(r, "out") /\ Has(r, "p"))
 
-TReset == l <= NRec /\ Rec[l].ev = "reset" /\ l' = l + 1 /\ steps' = 0
-TStep  == l <= NRec /\ WellFormed(Rec[l]) /\ Rec[l].ev \notin {"reset", "panic"} /\ l' = l + 1 /\ steps' = steps + 1
+IsResponder(r) == Has(r, "cfg") /\ Has(r.cfg, "responder") /\ r.cfg.responder
+TReset == /\ l <= NRec /\ Rec[l].ev = "reset" /\ l' = l + 1 /\ steps' = 0
+          /\ lc' = LcInit(IsResponder(Rec[l]))
+TStep  == /\ l <= NRec /\ WellFormed(Rec[l]) /\ Rec[l].ev \notin {"reset", "panic"} /\ l' = l + 1 /\ steps' = steps + 1
+          /\ lc' = IF Rec[l].ev = "skip" THEN lc ELSE LcNext(lc, Rec[l].ev, Rec[l].p, Rec[l].out)
 Violation ==
   /\ l <= NRec /\ Rec[l].ev = "panic" /\ l' = l + 1 /\ steps' = steps
+  /\ lc' = LcNext(lc, Rec[l].a, Rec[l].p, <<>>)
   /\ PrintT(<<"BAD", l, ToJson([a |-> Rec[l].a, msg |-> Rec[l].msg, pre_conn |-> Rec[l].pre_conn,
-                               pre_hs |-> Rec[l].pre_hs, after_steps |-> steps])>>)
+                               pre_hs |-> Rec[l].pre_hs, after_steps |-> steps,
+                               lifecycle_ok |-> LcNext(lc, Rec[l].a, Rec[l].p, <<>>).ok])>>)
 
 TNext == TReset \/ TStep \/ Violation
 =============================================================================
